@@ -40,6 +40,9 @@ PARAM_SLOTS = {"i01_func_kw_default": {1, 2}, "i03_method": {1, 2}, "i04_two_mod
                "i07_nested_call_args": {1, 2}, "i08_method_dotted_receiver": {1, 2}, "i10_from_import_several_names": {2}}
 
 
+QUICK_FUNCTION_NAME_ONLY = {"i08_method_dotted_receiver": 0, "i10_from_import_several_names": 1, "i11_call_on_continuation_line": 0}
+
+
 def instances(tier):
     out = []
     for k, sk in enumerate(K04):
@@ -53,7 +56,11 @@ def instances(tier):
                     continue  # inline-parameter takes no remove / only_current: the three modes are one request
                 if tier == "quick" and sk.name == "i01_func_kw_default" and q in (4, 5, 6, 9):
                     continue  # quick: one occurrence per role (later reads of the same parameter / local / global)
-                out.append(("inline.%s.q%02d.m%d" % (sk.name, q, mode), dict(k=k, q=q, mode=mode)))
+                if tier == "quick" and sk.name in QUICK_FUNCTION_NAME_ONLY and slots_by_q[q] != QUICK_FUNCTION_NAME_ONLY[sk.name]:
+                    continue  # quick: these skeletons are about the call sites: query the function's name only
+                # quick: the caller's global of the five-slot skeleton is pinned to a fixed spelling (52 -> 15 partitions)
+                pin = {4: "u"} if (tier == "quick" and sk.name == "i01_func_kw_default") else {}
+                out.append(("inline.%s.q%02d.m%d" % (sk.name, q, mode), dict(k=k, q=q, mode=mode, pin=pin)))
         if tier == "thorough":
             # two-letter spellings, one slot at a time, queried at that slot's first occurrence
             from harness.bcommon import len2_variants
@@ -89,7 +96,7 @@ def make_run(p):
     def run():
         from harness.c04_replay import tags_of
 
-        return bref.run_refactoring(sk, build_op, PROPERTY, check_imports=True, tagger=tags_of)
+        return bref.run_refactoring(sk, build_op, PROPERTY, check_imports=True, tagger=tags_of, pin=p.get("pin"))
 
     return run
 
